@@ -597,3 +597,7 @@
 (declare-fun tr_identity (Any) Bool)
 ; number of elements as reported by LengthInt (uninterpreted; LengthInt is not under contract yet)
 (declare-fun len_int (cty.Value) Int)
+; math/big.Int: the value as a mathematical integer (uninterpreted observation)
+(declare-fun bi.val (math/big.Int) Int)
+(define-fun r_trunc ((r Real)) Int (ite (>= r 0.0) (to_int r) (- (to_int (- r)))))
+(define-fun r_ceil ((r Real)) Int (- (to_int (- r))))
